@@ -14,8 +14,9 @@ import WuffsVerif.Gen.C09_StdFields
   choose <defined-macros> <have> <cur> <name:arch>…      (lists comma separated, `-` = empty)
      -> sel <name>
   idct <64 u16 LE coefficients, hex> <64 u8 quants, hex>
-     -> p=<64 bytes portable> a=<64 bytes avx2 emulation> inrange=<0|1>
-  idctp … -> p=<…> inrange=<0|1>
+     -> p=<64 bytes portable> a=<64 bytes avx2 emulation> inrange=<0|1> fit=<0|1>
+        (fit = `lanesFit`, the hypothesis of `idct_block_variants_agree`)
+  idctp … -> p=<…> inrange=<0|1> fit=<0|1>
   adler32|crc32|crc64 <hex> -> v <decimal>
   adler32x|crc32x|crc64x <seg>…   seg = h:<hex> | r:<hh>*<count>   (long worst-case inputs, e.g. runs of 0xFF)
      -> v <decimal>
@@ -168,8 +169,9 @@ def idctOp (withAvx : Bool) (l : List String) : String :=
       let qa : Array UInt16 := (qb.map (·.toUInt16)).toArray
       let p := idctPortable b qa
       let ir := if blockInRange b qa then "1" else "0"
-      if withAvx then s!"p={toHex p} a={toHex (idctAvx2 b qa)} inrange={ir}"
-      else s!"p={toHex p} inrange={ir}"
+      let fit := if lanesFit b qa then "1" else "0"
+      if withAvx then s!"p={toHex p} a={toHex (idctAvx2 b qa)} inrange={ir} fit={fit}"
+      else s!"p={toHex p} inrange={ir} fit={fit}"
     | _, _ => "bad-op"
   | _ => "bad-op"
 
